@@ -512,6 +512,43 @@ def check_dynamics_domain(ctx: Check, tree: Tree) -> None:
                 })
 
 
+def check_defaults_cover_expression(ctx: Check, tree: Tree) -> None:
+    """R-DEFAULTS (coverage): whatever the flags, every parameter symbol of the resonance (mass, width,
+    meson radius) that occurs in the expression a library builder returns is a key of the parameter
+    defaults it returns - otherwise the model contains a symbol that is neither a parameter nor a
+    kinematic variable."""
+    from ..terms import deep_atoms
+
+    D.reset()
+    te = TermEval(tree)
+    pool, resonance, self_struct = builder_env(te)
+    cls = tree.cls(f"{BLD}::RelativisticBreitWignerBuilder")
+    symbols = te.eval_function(cls.methods["__create_symbols"], [resonance])
+    names = dict(zip(("mass", "width", "meson radius"), symbols.items))
+    atoms_of = {n: te.single_atom(te._rf(v)) for n, v in names.items()}
+    call_m = cls.methods["__call__"]
+    cases = []
+    for edw in (False, True):
+        for ff in (False, True):
+            struct = {**self_struct, "energy_dependent_width": Opaque(edw), "form_factor": Opaque(ff)}
+            cases.append((f"RelativisticBreitWignerBuilder(energy_dependent_width={edw}, form_factor={ff})", call_m, [struct, resonance, pool]))
+    cases.append(("create_non_dynamic_with_ff", tree.func(f"{BLD}::create_non_dynamic_with_ff"), [resonance, pool]))
+    for label, fn, args in cases:
+        val = te.eval_function(fn, args)
+        if not (isinstance(val, Tup) and len(val.items) == 2 and isinstance(val.items[1], DictV)):
+            raise AnalysisError(f"{fn.qual}: does not return (expression, {{parameter: default}})")
+        expr, defaults = val.items
+        present = deep_atoms(te, expr)
+        keys = {te.single_atom(te._rf(k)) for k, _ in defaults.items}
+        missing = [n for n, a in atoms_of.items() if a in present and a not in keys]
+        unused = [n for n, a in atoms_of.items() if a in keys and a not in present]
+        ctx.verdict(not missing, "R-DEFAULTS", f"{fn.qual}::covers::{label}", tree.loc(fn.node),
+                    f"{label}: every resonance parameter in the expression has a default ({len(defaults.items)} entries)",
+                    None if not missing else f"the {', '.join(missing)} symbol occurs in the expression but not in the returned parameter defaults")
+        if unused:
+            ctx.advisory("R-DEFAULTS", tree.loc(fn.node), f"{label}: default for the {', '.join(unused)} although the expression does not contain it")
+
+
 def run(ctx: Check, tree: Tree) -> None:
     ctx.decided += [
         "R-TERM: _generate_kinematic_variable_set wires parent mass / daughter masses / angles of children[0] / L of the node; the three lineshape builders feed M^2, the daughter masses and the pool's L into FormFactor / EnergyDependentWidth",
@@ -525,6 +562,7 @@ def run(ctx: Check, tree: Tree) -> None:
     ctx.assumptions += ["functools.singledispatchmethod dispatches on the type of the first argument"]
     ctx.section(check_variable_set, ctx, tree)
     ctx.section(check_builders_use_pool, ctx, tree)
+    ctx.section(check_defaults_cover_expression, ctx, tree)
     ctx.section(check_symbol_duplicates, ctx, tree)
     ctx.section(check_dispatch, ctx, tree)
     ctx.section(check_same_decay, ctx, tree)
